@@ -3,8 +3,8 @@ package main
 // C50 conformance harness. Every input line is one terminal state of specs/backfill/Backfill.tla: an input
 // (samples with window/position timestamps and value classes, possibly one sample without timestamp),
 // the blocks the property demands (`want`: one per aligned block-duration window holding samples, with
-// exactly those samples), the blocks the transcribed algorithm produces (`got`) and the verdict of the
-// specification on the latter (`legal`). The harness renders the input as OpenMetrics text, runs the real
+// exactly those samples); `got`/`legal` carry what the transcribed algorithm produces (equal to `want` since
+// the alignment fix a01d00d164). The harness renders the input as OpenMetrics text, runs the real
 // promtool backfill(), opens the output directory and compares every block (time range inside its
 // window, series labels, timestamps, values) with `want`.
 
@@ -351,11 +351,12 @@ func TestVerifC50Backfill(t *testing.T) {
 			continue
 		}
 		desc := fmt.Sprintf("record %d: backfill wrote %d blocks %v, the input demands %d blocks %v", ri, len(got), got, len(want), want)
-		if rec.Legal != "ok" && c.matches(got, rec.Got) {
-			verifh.Violation("kf:"+rec.Legal, desc, cs)
-		} else {
-			verifh.Violation("blocks-differ", desc, cs)
+		// (the signature distinguishes the regression of the fixed finding KF-C50-1: samples below zero missing)
+		sig := "blocks-differ"
+		if len(rec.In) > 0 && rec.In[0].Ts < 0 && len(got) < len(want) {
+			sig = "blocks-differ:negative-timestamps-dropped"
 		}
+		verifh.Violation(sig, desc, cs)
 		if verifh.Violations() > 40 {
 			break
 		}
